@@ -76,7 +76,11 @@ fn build(ctx: &AllCtx, shapes: u64, master: u64) -> (Vec<EFrame>, Vec<(usize, It
             if !seen.insert(key) {
                 continue;
             }
-            let tokens: Vec<String> = f.shape.split(',').map(|x| x.to_string()).collect();
+            let mut tokens: Vec<String> = f.shape.split(',').map(|x| x.to_string()).collect();
+            if c.name.contains("WARDEN") {
+                // the body length class is what matters for the header/body readers
+                tokens.push(format!("len={}", f.plain.len()));
+            }
             let adds = tokens.iter().any(|t| !seen_tokens.contains(t));
             if kept > 0 && !adds && s < shapes * 10 {
                 continue;
@@ -95,12 +99,12 @@ fn build(ctx: &AllCtx, shapes: u64, master: u64) -> (Vec<EFrame>, Vec<(usize, It
             items.push((fi, Item::Bytewise));
             items.push((fi, Item::Write));
             for k in 1..n {
-                if n <= 200 || k <= 64 || k + 8 >= n || k % 16 == 0 {
+                if n <= 200 || (n <= 2000 && (k <= 64 || k + 8 >= n || k % 16 == 0)) || (n > 2000 && (k <= 16 || k + 4 >= n || k % 4096 == 0)) {
                     items.push((fi, Item::Split(k)));
                 }
             }
             for t in 0..n {
-                if n <= 200 || t <= 64 || t + 8 >= n || t % 16 == 0 {
+                if n <= 200 || (n <= 2000 && (t <= 64 || t + 8 >= n || t % 16 == 0)) || (n > 2000 && (t <= 16 || t + 4 >= n || t % 4096 == 0)) {
                     items.push((fi, Item::Eof(t)));
                 }
             }
@@ -117,14 +121,15 @@ impl C06 {
         let mut cases = all_cases(&ctx);
         cases.retain(|c| c.login.is_some());
         cases.extend(world_cases(&ctx));
-        let (frames_q, items_q) = build(&ctx, 2, master);
+        let (frames_q, items_q) = build(&ctx, 4, master);
         let (frames_t, items_t) = build(&ctx, 6, master);
         C06 { ctx, cases, frames_q, items_q, frames_t, items_t }
     }
 }
 
 /// read up to `n` messages; each element: (result signature, consumed after it)
-fn read_seq(case: &Case, names: &[String], entry0: &Entry, fl: Flavour, stream: &[u8], sched: &Schedule, end_error: Option<std::io::ErrorKind>, o: &mut Outcome) -> (Vec<(Result<String, ErrSig>, usize)>, Option<String>, crate::pipe::PipeStats, Vec<usize>, Vec<usize>, u64) {
+fn read_seq(case: &Case, names: &[String], entry0: &Entry, fl: Flavour, stream: &[u8], sched: &Schedule, end_error: Option<std::io::ErrorKind>, o: &mut Outcome, enc: bool) -> (Vec<(Result<String, ErrSig>, usize)>, Option<String>, crate::pipe::PipeStats, Vec<usize>, Vec<usize>, u64) {
+    let mut crypto = if enc { Some(session_crypto(case.exp, [9u8; 40])) } else { None };
     let mut r = SimReader::new(stream, sched);
     r.end_error = end_error;
     let pend: u64 = sched.steps.iter().map(|s| if let Step::Pending(k) = s { *k as u64 } else { 0 }).sum();
@@ -137,7 +142,25 @@ fn read_seq(case: &Case, names: &[String], entry0: &Entry, fl: Flavour, stream: 
             Entry::Initial if k == 0 => Entry::Initial,
             _ => Entry::Enum,
         };
-        match guarded(|| read_any(case, &entry, fl, &mut r, budget)) {
+        let dec = match (&mut crypto, case.dir) {
+            (Some(c), Dir::Client) => Some(&mut c.server_dec),
+            (Some(c), Dir::Server) => Some(&mut c.client_dec),
+            _ => None,
+        };
+        let res = guarded(|| match dec {
+            None => read_any(case, &entry, fl, &mut r, budget),
+            Some(d) => {
+                let ro = match &entry {
+                    Entry::Expect(n) => read_expect(case.exp, case.dir, n, fl, Some(d), &mut r, budget).map(|x| x.0),
+                    _ => Some(read_enum(case.exp, case.dir, fl, Some(d), &mut r, budget)),
+                };
+                match ro {
+                    Some(ro) => (ro.result.map(|m| m.debug()), ro.polls, ro.budget_exceeded),
+                    None => (Err(ErrSig { outer: "HARNESS".into(), kind: "no-entry".into(), detail: String::new() }), 0, false),
+                }
+            }
+        });
+        match res {
             Err((msg, loc)) => {
                 problem = Some(format!("panic:{}", panic_sig(&msg, &loc)));
                 break;
@@ -219,7 +242,7 @@ impl Check for C06 {
                 Item::Write => ("write", f.bytes.clone(), Schedule::random(&mut sr, n + 4, false), "write".into()),
             };
             return json!({"kind": kind, "label": format!("{}:{}", f.case.label(), what), "case": case_json(&f.case), "names": [f.case.name], "stream": bytes_to_json(&stream),
-                "bounds": f.bounds, "entry": entry, "end_error": "", "enumerated": true,
+                "bounds": f.bounds, "starts": [0], "entry": entry, "end_error": "", "enumerated": true,
                 "sched_t": sched_json(&sched), "sched_a": sched_json(&sched), "sched_s": sched_json(&Schedule { steps: sched.steps.iter().map(|s| if let Step::Pending(_) = s { Step::Interrupted } else { *s }).collect(), tail_chunk: sched.tail_chunk, tail_pending: 0, wake_now: true })});
         }
         // sampled
@@ -232,11 +255,13 @@ impl Check for C06 {
         let mut names = Vec::new();
         let mut bounds = Vec::new();
         let mut fault_desc = String::new();
+        let mut starts: Vec<usize> = Vec::new();
         for k in 0..n {
             let c = if k == 0 { model.message(&case.name).unwrap_or(msgs[0]) } else { *cf.pick(&msgs) };
             let Ok(f) = model.encode(c, &mut cf, &Knobs { allow_nan: false, ..Knobs::default() }) else { continue };
             let cc = Case { name: f.name.clone(), ..case.clone() };
             let start = stream.len();
+            starts.push(start);
             if Some(k) == fault_at {
                 let mut muts = field_mutations(&f);
                 muts.extend(truncations(&f, cc.login.is_none()));
@@ -260,7 +285,7 @@ impl Check for C06 {
         let kind = if fault_at.is_none() && cf.chance(1, 6) { "write" } else { "read" };
         let total = stream.len() + 16;
         json!({"kind": kind, "label": format!("{}:{}", case.label(), names.join("+")), "case": case_json(&case), "names": names, "stream": bytes_to_json(&stream),
-            "bounds": bounds, "entry": entry, "end_error": end_error, "enumerated": false, "fault": fault_desc,
+            "bounds": bounds, "starts": starts, "entry": entry, "end_error": end_error, "enumerated": false, "fault": fault_desc,
             "sched_t": sched_json(&Schedule::random(&mut sr, total, false)), "sched_a": sched_json(&Schedule::random(&mut sr, total, false)),
             "sched_s": sched_json(&Schedule::random(&mut sr, total, true))})
     }
@@ -336,7 +361,7 @@ impl Check for C06 {
             "ConnectionReset" => Some(std::io::ErrorKind::ConnectionReset),
             _ => None,
         };
-        let (refs, refp, _, _, _, _) = read_seq(&case, &names, &entry0, Flavour::Sync, &stream, &whole, end_error, &mut o);
+        let (refs, refp, _, _, _, _) = read_seq(&case, &names, &entry0, Flavour::Sync, &stream, &whole, end_error, &mut o, false);
         if refs.iter().any(|x| matches!(&x.0, Err(e) if e.outer == "HARNESS")) {
             o.count("entry_unavailable", 1);
             return o;
@@ -344,7 +369,7 @@ impl Check for C06 {
         let bounds: Vec<usize> = sc["bounds"].as_array().map(|a| a.iter().filter_map(|x| x.as_u64().map(|y| y as usize)).collect()).unwrap_or_default();
         let mut inside = false;
         for (fl, sched, tag) in [(Flavour::Tokio, &st, "tokio"), (Flavour::Astd, &sa, "astd"), (Flavour::Sync, &ss, "sync-chunked")] {
-            let (got, gotp, stats, splits, pends, rlog) = read_seq(&case, &names, &entry0, fl, &stream, sched, end_error, &mut o);
+            let (got, gotp, stats, splits, pends, rlog) = read_seq(&case, &names, &entry0, fl, &stream, sched, end_error, &mut o, false);
             log.u64(rlog);
             o.count(&format!("{}_pendings", tag), stats.pendings);
             o.count(&format!("{}_chunks", tag), stats.chunks);
@@ -391,6 +416,51 @@ impl Check for C06 {
                     o.violate("readers_agree", format!("differs:{}:{}:{}:{}", tag, target, cls, names.get(k).cloned().unwrap_or_default()), format!("{}: message #{}: {} reader returned {} after {} bytes, blocking whole-buffer reader {} after {} bytes", sc["label"].as_str().unwrap_or(""), k, tag, d(&g.0), g.1, d(&r.0), r.1));
                     break;
                 }
+            }
+        }
+        // world: the decrypting readers (headers encrypted with the session key at every message start)
+        if case.login.is_none() {
+            let starts: Vec<usize> = sc["starts"].as_array().map(|a| a.iter().filter_map(|x| x.as_u64().map(|y| y as usize)).collect()).unwrap_or_else(|| vec![0]);
+            let mut crypto = session_crypto(case.exp, [9u8; 40]);
+            let mut enc_stream = stream.clone();
+            for s in &starts {
+                if *s >= enc_stream.len() {
+                    continue;
+                }
+                let hl = match case.dir {
+                    Dir::Client => 6,
+                    Dir::Server => {
+                        if case.exp == Exp::Wrath && enc_stream[*s] & 0x80 != 0 {
+                            5
+                        } else {
+                            4
+                        }
+                    }
+                };
+                let end = (*s + hl).min(enc_stream.len());
+                let e = match case.dir {
+                    Dir::Client => &mut crypto.client_enc,
+                    Dir::Server => &mut crypto.server_enc,
+                };
+                e.encrypt(&mut enc_stream[*s..end]);
+            }
+            let (erefs, erefp, _, _, _, _) = read_seq(&case, &names, &entry0, Flavour::Sync, &enc_stream, &whole, end_error, &mut o, true);
+            for (fl, sched, tag) in [(Flavour::Tokio, &st, "tokio"), (Flavour::Astd, &sa, "astd"), (Flavour::Sync, &ss, "sync-chunked")] {
+                let (got, gotp, _, _, _, rlog) = read_seq(&case, &names, &entry0, fl, &enc_stream, sched, end_error, &mut o, true);
+                log.u64(rlog);
+                let target = case.label().split(':').next().unwrap_or("").to_string();
+                let same = gotp == erefp
+                    && got.len() == erefs.len()
+                    && got.iter().zip(erefs.iter()).all(|(g, r)| match (&g.0, &r.0) {
+                        (Ok(a), Ok(b)) => a == b && g.1 == r.1,
+                        (Err(a), Err(b)) => a == b,
+                        _ => false,
+                    });
+                if !same {
+                    let d = |x: &Vec<(Result<String, ErrSig>, usize)>| x.iter().map(|y| match &y.0 { Ok(s) => format!("Ok({})@{}", s.chars().take(40).collect::<String>(), y.1), Err(e) => format!("Err({})@{}", e.short(), y.1) }).collect::<Vec<_>>().join(", ");
+                    o.violate("readers_agree", format!("differs-encrypted:{}:{}", tag, target), format!("{}: decrypting {} reader returned [{}] {:?}, decrypting blocking whole-buffer reader [{}] {:?}", sc["label"].as_str().unwrap_or(""), tag, d(&got), gotp, d(&erefs), erefp));
+                }
+                o.count("encrypted_reader_comparisons", 1);
             }
         }
         o.count("reads_ok_in_reference", refs.iter().filter(|x| x.0.is_ok()).count() as u64);
